@@ -366,6 +366,10 @@ func TestPrecedenceLevels(t *testing.T) {
 		}
 		m.FixSemis()
 		src := m.Text()
+		if rapid.Bool().Draw(t, "drawnLayout") {
+			toks := m.Tokens()
+			src, _ = ref.Render(toks, gen.Seps(t, toks))
+		}
 		var cls []string
 		cls = append(cls, fmt.Sprintf("levels_%d", levels))
 		if ruleHandles > 0 {
